@@ -9,7 +9,11 @@
 //! resources. Valid links are also re-issued with one extension rewritten by
 //! the harness' own DER writer (resource extensions in shapes the builder
 //! cannot produce, key identifiers of other lengths and encodings) and signed
-//! with the issuer key: see `encoder_shapes` and `keyid_shapes`.
+//! with the issuer key: see `encoder_shapes` and `keyid_shapes`. Key
+//! identifiers computed from the RIGHT key in another way than the SHA-1 hash
+//! of the key bits (a dictionary of sources x hash functions x truncations)
+//! are planted through every validate / inspect+verify entry point, strict and
+//! relaxed: see `derivations`, `derivation_sweep` and `derived_in_chain`.
 
 use crate::c03_gen::{sequence, Flavour};
 use crate::core::{hex, Ctx, Rng, Stage, Tier};
@@ -137,6 +141,10 @@ struct World<'a> {
     tal: Arc<TalInfo>,
     uri: uri::Rsync,
     router_keys: Vec<PublicKey>,
+    /// what the harness worked out by itself about every pool key / router key
+    /// (same order): the required identifier and the alternative derivations
+    pool_facts: Vec<KeyFacts>,
+    router_facts: Vec<KeyFacts>,
 }
 
 fn build(w: &World, s: &Spec) -> Vec<u8> {
@@ -554,7 +562,7 @@ struct Node {
     na: i64,
 }
 
-fn run_chain(ctx: &mut Ctx, w: &World, rng: &mut Rng, xrng: &mut Rng, chain_no: u64) {
+fn run_chain(ctx: &mut Ctx, w: &World, rng: &mut Rng, xrng: &mut Rng, drng: &mut Rng, chain_no: u64) {
     let nkeys = w.pool.len();
     // evaluation instants in several eras so that validity windows are encoded
     // as UTCTime on both sides of the two-digit-year pivot and as GeneralizedTime
@@ -759,6 +767,11 @@ fn run_chain(ctx: &mut Ctx, w: &World, rng: &mut Rng, xrng: &mut Rng, chain_no: 
         }
         if xrng.chance(tamper_budget, ki_den) {
             keyid_shapes(ctx, w, xrng, &spec, &d, &node, strict, now, &detail);
+        }
+        // ---- the same certificate with a key identifier derived from the right key in
+        // another way (own random stream again)
+        if drng.chance(tamper_budget, ki_den) {
+            derived_in_chain(ctx, w, drng, &spec, &d, &node, now, &detail);
         }
         match (kind, rc, want) {
             (Kind::Ca, Some(rc), Some(eff)) => {
@@ -1498,23 +1511,617 @@ fn keyid_shapes(ctx: &mut Ctx, w: &World, rng: &mut Rng, spec: &Spec, d: &[u8], 
     }
 }
 
+//------------ key identifiers derived from the right key in another way -----
+//
+// The tampers above replace a key identifier by something unrelated to the
+// right key (another key's identifier, flipped bits, other lengths). A
+// validator can also go wrong by accepting an identifier that WAS computed
+// from the right key, only not the way the statement says ("the hash of its
+// key": RFC 6487 4.8.2, the 160-bit SHA-1 hash of the subjectPublicKey bits):
+// RFC 7093 truncated SHA-2 hashes, a hash over the whole SubjectPublicKeyInfo
+// or over the RSA modulus, RFC 5280 method 2, and so on. Such a value differs
+// from the required one in about every second bit, so it is a non-conforming
+// key identifier like any other and the certificate must be rejected by every
+// entry point, strict or relaxed. The dictionary is the product
+// sources x hash functions x truncations, all computed by the harness from
+// the SubjectPublicKeyInfo octets with its own DER reader and aws-lc-rs.
+
+/// One alternative derivation of a key identifier from a public key.
+#[derive(Clone, Debug)]
+struct Deriv {
+    /// `<hash>-of-<source>-<form>`; part of violation signatures
+    name: String,
+    hash: &'static str,
+    source: &'static str,
+    form: &'static str,
+    octets: Vec<u8>,
+}
+
+struct KeyFacts {
+    spki: Vec<u8>,
+    /// SHA-1 of the subjectPublicKey bits, computed by the harness
+    required: Vec<u8>,
+    derivs: Vec<Deriv>,
+}
+
+const HASHES: [&str; 7] = ["sha1", "sha224", "sha256", "sha384", "sha512", "sha512-256", "sha3-256"];
+
+fn hash_of(name: &str, data: &[u8]) -> Vec<u8> {
+    use aws_lc_rs::digest as d;
+    let alg = match name {
+        "sha1" => &d::SHA1_FOR_LEGACY_USE_ONLY,
+        "sha224" => &d::SHA224,
+        "sha256" => &d::SHA256,
+        "sha384" => &d::SHA384,
+        "sha512" => &d::SHA512,
+        "sha512-256" => &d::SHA512_256,
+        _ => &d::SHA3_256,
+    };
+    d::digest(alg, data).as_ref().to_vec()
+}
+
+/// The octet strings of a public key somebody might hash, read from the
+/// SubjectPublicKeyInfo with the harness' DER reader. The first entry is the
+/// one the profile prescribes.
+fn key_sources(spki: &[u8]) -> Option<Vec<(&'static str, Vec<u8>)>> {
+    let root = der::parse(spki)?;
+    if root.tag != der::T_SEQUENCE || root.children.len() != 2 {
+        return None;
+    }
+    let bs = root.child(1)?;
+    if bs.tag != der::T_BITSTRING {
+        return None;
+    }
+    let content = bs.content(spki);
+    if content.is_empty() || content[0] != 0 {
+        return None;
+    }
+    let bits = content[1..].to_vec();
+    let mut out: Vec<(&'static str, Vec<u8>)> = vec![
+        ("key-bits", bits.clone()),
+        ("spki", spki.to_vec()),
+        ("spki-content", root.content(spki).to_vec()),
+        ("bitstring-content", content.to_vec()),
+        ("bitstring-tlv", bs.whole(spki).to_vec()),
+    ];
+    if bits.first() == Some(&der::T_SEQUENCE) {
+        // RSAPublicKey ::= SEQUENCE { modulus INTEGER, publicExponent INTEGER }
+        if let Some(rsa) = der::parse(&bits) {
+            if rsa.children.len() == 2 && rsa.children.iter().all(|c| c.tag == der::T_INTEGER) {
+                let n_signed = rsa.children[0].content(&bits).to_vec();
+                let strip = |v: &[u8]| -> Vec<u8> {
+                    let k = v.iter().position(|b| *b != 0).unwrap_or(v.len());
+                    v[k..].to_vec()
+                };
+                let n = strip(&n_signed);
+                let e = strip(rsa.children[1].content(&bits));
+                out.push(("rsa-modulus", n.clone()));
+                out.push(("rsa-modulus-integer-content", n_signed));
+                out.push(("rsa-modulus-tlv", rsa.children[0].whole(&bits).to_vec()));
+                out.push(("rsa-modulus-and-exponent", [n, e].concat()));
+            }
+        }
+    } else if bits.len() == 65 && bits[0] == 4 {
+        // uncompressed P-256 point
+        out.push(("ec-point-without-prefix", bits[1..].to_vec()));
+        out.push(("ec-x-coordinate", bits[1..33].to_vec()));
+        let mut comp = vec![2 + (bits[64] & 1)];
+        comp.extend_from_slice(&bits[1..33]);
+        out.push(("ec-compressed-point", comp));
+    }
+    Some(out)
+}
+
+/// Everything the harness knows about one key: the required identifier and
+/// every alternative derivation that differs from it.
+fn key_facts(spki: &[u8]) -> KeyFacts {
+    let sources = key_sources(spki).expect("SubjectPublicKeyInfo of a harness key");
+    let required = hash_of("sha1", &sources[0].1);
+    let mut derivs = Vec::new();
+    for (source, bytes) in &sources {
+        for h in HASHES {
+            let full = hash_of(h, bytes);
+            let mut forms: Vec<(&'static str, Vec<u8>)> = vec![("full", full.clone())];
+            if full.len() > 20 {
+                // RFC 7093 methods 1-3 take the leftmost 160 bits
+                forms.push(("left20", full[..20].to_vec()));
+                forms.push(("right20", full[full.len() - 20..].to_vec()));
+            }
+            if h == "sha1" {
+                // RFC 5280 4.2.1.2 method 2: 0100 followed by the least significant 60 bits
+                let mut m2 = vec![0x40 | (full[12] & 0x0F)];
+                m2.extend_from_slice(&full[13..20]);
+                forms.push(("rfc5280-method2", m2.clone()));
+                forms.push(("rfc5280-method2-zero-padded-left", [&[0u8; 12][..], &m2[..]].concat()));
+                forms.push(("rfc5280-method2-zero-padded-right", [&m2[..], &[0u8; 12][..]].concat()));
+            }
+            for (form, octets) in forms {
+                if octets == required {
+                    continue; // the prescribed derivation
+                }
+                derivs.push(Deriv { name: format!("{}-of-{}-{}", h, source, form), hash: h, source, form, octets });
+            }
+        }
+    }
+    KeyFacts { spki: spki.to_vec(), required, derivs }
+}
+
+/// An identifier that belongs to a neighbour in the chain (not a hash at all).
+fn relation(name: &str, octets: &[u8]) -> Deriv {
+    Deriv { name: name.to_string(), hash: "none", source: "chain-relation", form: "full", octets: octets.to_vec() }
+}
+
+/// The SKI / AKI extension holding `content`.
+fn keyid_ext(id_is_aki: bool, content: &[u8]) -> Vec<u8> {
+    if id_is_aki {
+        extension(OID_CE_AKI, false, &der::seq(&[&der::tlv(der::ctx_prim(0), content)]))
+    } else {
+        extension(OID_CE_SKI, false, &der::octets(content))
+    }
+}
+
+/// The TBS of `cert` with the extension `oid` replaced where it stands.
+fn replace_extension(cert: &[u8], oid: &[u64], new_ext: &[u8]) -> Option<Vec<u8>> {
+    let root = der::parse(cert)?;
+    let tbs_bytes = root.child(0)?.whole(cert).to_vec();
+    let troot = der::parse(&tbs_bytes)?;
+    let xi = troot.children.iter().position(|c| c.tag == der::ctx(3))?;
+    let list = troot.children[xi].child(0)?;
+    let want = der::oid(oid);
+    let mut found = list.children.iter().enumerate().filter(|(_, e)| e.child(0).map(|o| o.whole(&tbs_bytes) == want.as_slice()).unwrap_or(false));
+    let (ei, _) = found.next()?;
+    if found.next().is_some() {
+        return None;
+    }
+    Some(der::replace_node(&tbs_bytes, &troot, &[xi, 0, ei], new_ext))
+}
+
+/// The certificate `cert` with its SKI / AKI holding `content`, signed by `signer`.
+fn with_keyid(pool: &PoolSigner, cert: &[u8], id_is_aki: bool, content: &[u8], signer: usize) -> Option<Vec<u8>> {
+    let tbs = replace_extension(cert, if id_is_aki { OID_CE_AKI } else { OID_CE_SKI }, &keyid_ext(id_is_aki, content))?;
+    resign(pool, cert, &tbs, signer)
+}
+
+/// At which instant a certificate is judged: a given one (the `_at` entry
+/// points) or the wall clock (the entry points without `_at`, which read
+/// `Time::now()` themselves).
+#[derive(Clone, Copy, Debug, PartialEq)]
+enum Clock {
+    At(i64),
+    Wall,
+}
+
+fn ok_of<T, E: std::fmt::Display>(r: Result<T, E>) -> Result<(), String> {
+    r.map(|_| ()).map_err(|e| e.to_string())
+}
+
+/// Every public way to have `der_bytes` validated as `kind`: the one-call
+/// entry points, inspection and verification as two calls (for a trust anchor
+/// both verification functions, for an EE certificate both inspection
+/// functions), and the one-call entry point after a trip through serde.
+fn entry_points(ctx: &mut Ctx, w: &World, kind: Kind, der_bytes: &[u8], issuer: Option<&ResourceCert>, strict: bool, clock: Clock) -> Vec<(&'static str, Result<(), String>)> {
+    let tal = w.tal.clone();
+    let res = ctx.no_panic("validate-entry-points", || json!({"cert": hex(der_bytes), "kind": format!("{:?}", kind), "clock": format!("{:?}", clock), "strict": strict}), move || {
+        let mut out: Vec<(&'static str, Result<(), String>)> = Vec::new();
+        let cert = match Cert::decode(der_bytes) {
+            Ok(c) => c,
+            Err(e) => {
+                out.push(("decode", Err(format!("decode: {}", e))));
+                return out;
+            }
+        };
+        match (kind, clock) {
+            (Kind::Ta, Clock::At(t)) => {
+                let t = time_at(t);
+                out.push(("validate_ta_at", ok_of(cert.clone().validate_ta_at(tal.clone(), strict, t))));
+                out.push(("inspect_ta+verify_ta_at", ok_of(cert.inspect_ta(strict)).and_then(|_| ok_of(cert.clone().verify_ta_at(tal.clone(), strict, t)))));
+                out.push(("inspect_ta+verify_ta_ref_at", ok_of(cert.inspect_ta(strict)).and_then(|_| ok_of(cert.verify_ta_ref_at(strict, t)))));
+            }
+            (Kind::Ta, Clock::Wall) => {
+                out.push(("validate_ta", ok_of(cert.clone().validate_ta(tal.clone(), strict))));
+                out.push(("inspect_ta+verify_ta", ok_of(cert.inspect_ta(strict)).and_then(|_| ok_of(cert.clone().verify_ta(tal.clone(), strict)))));
+                out.push(("inspect_ta+verify_ta_ref", ok_of(cert.inspect_ta(strict)).and_then(|_| ok_of(cert.verify_ta_ref(strict)))));
+            }
+            (Kind::Ca, Clock::At(t)) => {
+                let (t, iss) = (time_at(t), issuer.unwrap());
+                out.push(("validate_ca_at", ok_of(cert.clone().validate_ca_at(iss, strict, t))));
+                out.push(("inspect_ca+verify_ca_at", ok_of(cert.inspect_ca(strict)).and_then(|_| ok_of(cert.clone().verify_ca_at(iss, strict, t)))));
+            }
+            (Kind::Ca, Clock::Wall) => {
+                let iss = issuer.unwrap();
+                out.push(("validate_ca", ok_of(cert.clone().validate_ca(iss, strict))));
+                out.push(("inspect_ca+verify_ca", ok_of(cert.inspect_ca(strict)).and_then(|_| ok_of(cert.clone().verify_ca(iss, strict)))));
+            }
+            (Kind::Ee, Clock::At(t)) => {
+                let (t, iss) = (time_at(t), issuer.unwrap());
+                out.push(("validate_ee_at", ok_of(cert.clone().validate_ee_at(iss, strict, t))));
+                out.push(("inspect_ee+verify_ee_at", ok_of(cert.inspect_ee(strict)).and_then(|_| ok_of(cert.clone().verify_ee_at(iss, strict, t)))));
+                out.push(("validate_detached_ee_at", ok_of(cert.clone().validate_detached_ee_at(iss, strict, t))));
+                out.push(("inspect_detached_ee+verify_ee_at", ok_of(cert.inspect_detached_ee(strict)).and_then(|_| ok_of(cert.clone().verify_ee_at(iss, strict, t)))));
+            }
+            (Kind::Ee, Clock::Wall) => {
+                let iss = issuer.unwrap();
+                out.push(("validate_ee", ok_of(cert.clone().validate_ee(iss, strict))));
+                out.push(("inspect_ee+verify_ee", ok_of(cert.inspect_ee(strict)).and_then(|_| ok_of(cert.clone().verify_ee(iss, strict)))));
+                out.push(("validate_detached_ee", ok_of(cert.clone().validate_detached_ee(iss, strict))));
+                out.push(("inspect_detached_ee+verify_ee", ok_of(cert.inspect_detached_ee(strict)).and_then(|_| ok_of(cert.clone().verify_ee(iss, strict)))));
+            }
+            (Kind::Router, Clock::At(t)) => {
+                let (t, iss) = (time_at(t), issuer.unwrap());
+                out.push(("validate_router_at", ok_of(cert.validate_router_at(iss, strict, t))));
+                out.push(("inspect_router+verify_router_at", ok_of(cert.inspect_router(strict)).and_then(|_| ok_of(cert.verify_router_at(iss, strict, t)))));
+            }
+            (Kind::Router, Clock::Wall) => {
+                let iss = issuer.unwrap();
+                out.push(("validate_router", ok_of(cert.validate_router(iss, strict))));
+                out.push(("inspect_router+verify_router", ok_of(cert.inspect_router(strict)).and_then(|_| ok_of(cert.verify_router(iss, strict)))));
+            }
+        }
+        if let Clock::At(t) = clock {
+            let t = time_at(t);
+            if let Some(back) = serde_json::to_string(&cert).ok().and_then(|js| serde_json::from_str::<Cert>(&js).ok()) {
+                out.push(match kind {
+                    Kind::Ta => ("serde+validate_ta_at", ok_of(back.validate_ta_at(tal, strict, t))),
+                    Kind::Ca => ("serde+validate_ca_at", ok_of(back.validate_ca_at(issuer.unwrap(), strict, t))),
+                    Kind::Ee => ("serde+validate_ee_at", ok_of(back.validate_ee_at(issuer.unwrap(), strict, t))),
+                    Kind::Router => ("serde+validate_router_at", ok_of(back.validate_router_at(issuer.unwrap(), strict, t))),
+                });
+            }
+        }
+        out
+    });
+    res.unwrap_or_default()
+}
+
+fn clock_json(clock: Clock) -> Value {
+    match clock {
+        Clock::At(t) => json!(t),
+        Clock::Wall => json!("wall clock (entry points without _at)"),
+    }
+}
+
+/// One certificate whose SKI (`which` = "ski") or AKI ("aki") holds `dv`
+/// instead of `required`, correctly signed: every entry point must refuse it,
+/// strict and relaxed.
+#[allow(clippy::too_many_arguments)]
+fn check_derived(ctx: &mut Ctx, w: &World, kind: Kind, x: &[u8], issuer: Option<&ResourceCert>, clock: Clock, which: &'static str, dv: &Deriv, facts: &KeyFacts, detail: &Value) {
+    let required: &[u8] = &facts.required;
+    let kname = format!("{:?}", kind).to_lowercase();
+    ctx.sig(&format!("derived {} {} {}{}", which, dv.name, kname, if clock == Clock::Wall { " wall-clock" } else { "" }));
+    ctx.obs("derived_cases", 1);
+    ctx.obs(&format!("derived_cases:{}:{}", which, kname), 1);
+    ctx.obs(&format!("derived_cases_hash:{}", dv.hash), 1);
+    ctx.obs(&format!("derived_cases_source:{}", dv.source), 1);
+    ctx.obs(&format!("derived_cases_form:{}", dv.form), 1);
+    // (entry point, strict) pairs that accepted / all pairs tried
+    let mut accepted: Vec<(&'static str, bool)> = Vec::new();
+    let mut tried: Vec<&'static str> = Vec::new();
+    for strict in [true, false] {
+        let sname = if strict { "strict" } else { "relaxed" };
+        for (route, res) in entry_points(ctx, w, kind, x, issuer, strict, clock) {
+            ctx.eval();
+            ctx.obs(&format!("derived_checks:{}", sname), 1);
+            ctx.obs(&format!("derived_checks_via:{}", route), 1);
+            if !tried.contains(&route) {
+                tried.push(route);
+            }
+            match res {
+                Err(e) => {
+                    ctx.sample(&format!("derived-{}-{}", which, if dv.octets.len() == 20 { "20-octets" } else { "other-length" }), || {
+                        json!({"which": which, "derivation": dv.name, "identifier_in_certificate": hex(&dv.octets), "required": hex(required), "kind": kname, "entry_point": route, "strict": strict, "observed": format!("rejected: {}", e)})
+                    });
+                }
+                Ok(()) => accepted.push((route, strict)),
+            }
+        }
+    }
+    if accepted.is_empty() {
+        return;
+    }
+    // where it got through, as part of the signature: under which strictness and
+    // through which entry points (a change in one entry point and a change in the
+    // shared inspection step are different findings)
+    let routes: Vec<&'static str> = tried.iter().copied().filter(|r| accepted.iter().any(|(a, _)| a == r)).collect();
+    let uniform = |strict: bool| routes.iter().all(|r| accepted.contains(&(*r, strict)));
+    let none = |strict: bool| !accepted.iter().any(|(_, s)| *s == strict);
+    let strictness = if uniform(true) && uniform(false) {
+        "strict-and-relaxed".to_string()
+    } else if uniform(false) && none(true) {
+        "relaxed-only".to_string()
+    } else if uniform(true) && none(false) {
+        "strict-only".to_string()
+    } else {
+        format!("mixed({})", accepted.iter().map(|(r, s)| format!("{}/{}", r, if *s { "strict" } else { "relaxed" })).collect::<Vec<_>>().join(","))
+    };
+    let through = if routes.len() == tried.len() { "all-entry-points".to_string() } else { format!("only({})", routes.join(",")) };
+    let what = if which == "ski" { "subject key identifier is not the SHA-1 hash of its key bits" } else { "authority key identifier is not the issuer's subject key identifier" };
+    ctx.violation(
+        &format!("C01:accepts:{}-derived:{}:{}:{}:{}", which, dv.name, kname, strictness, through),
+        &format!("a correctly signed certificate whose {} (it holds {} instead) was accepted ({}; {})", what, dv.name, strictness, through),
+        json!({
+            "which": which,
+            "derivation": {"name": dv.name, "hash": dv.hash, "source": dv.source, "form": dv.form},
+            "identifier_in_certificate": hex(&dv.octets),
+            "required": hex(required),
+            "public_key_the_identifier_belongs_to": hex(&facts.spki),
+            "kind": kname,
+            "accepted_by": accepted.iter().map(|(r, s)| json!({"entry_point": r, "strict": s})).collect::<Vec<_>>(),
+            "entry_points_tried": tried,
+            "now": clock_json(clock),
+            "cert": hex(x), "case": detail,
+        }),
+    );
+}
+
+/// The control of a sweep: the certificate as issued must pass every entry
+/// point, strict and relaxed. Returns false if it does not (the sweep then has
+/// nothing to say about this certificate).
+fn control_accepted(ctx: &mut Ctx, w: &World, kind: Kind, d: &[u8], issuer: Option<&ResourceCert>, clock: Clock, detail: &Value) -> bool {
+    let kname = format!("{:?}", kind).to_lowercase();
+    let mut all = true;
+    for strict in [true, false] {
+        let routes = entry_points(ctx, w, kind, d, issuer, strict, clock);
+        if routes.is_empty() {
+            return false;
+        }
+        for (route, res) in routes {
+            ctx.eval();
+            match res {
+                Ok(()) => ctx.obs("derived_control_accepted", 1),
+                Err(e) => {
+                    all = false;
+                    if clock == Clock::Wall {
+                        // the harness cannot vouch for the machine's clock
+                        ctx.obs("derived_control_rejected_at_wall_clock", 1);
+                    } else {
+                        ctx.violation(
+                            &format!("C01:rejects-conforming:{}:{}", kname, route),
+                            &format!("a correctly issued certificate was rejected via {} with strict = {}", route, strict),
+                            json!({"error": e, "entry_point": route, "strict": strict, "cert": hex(d), "case": detail}),
+                        );
+                    }
+                }
+            }
+        }
+    }
+    all
+}
+
+/// Which part of the dictionary a sweep goes through.
+#[derive(Clone, Copy)]
+struct Slice {
+    modulus: usize,
+    residue: usize,
+    /// only 20-octet identifiers hashed from the key bits or the whole SubjectPublicKeyInfo
+    core_only: bool,
+}
+
+impl Slice {
+    fn takes(&self, i: usize, dv: &Deriv) -> bool {
+        i % self.modulus == self.residue && (!self.core_only || dv.source == "chain-relation" || (dv.octets.len() == 20 && (dv.source == "key-bits" || dv.source == "spki")))
+    }
+}
+
+/// A chain TA -> CA -> {CA, EE, router} of its own; then for the trust anchor
+/// (SKI) and for each of the three leaves (SKI and AKI) the certificate is
+/// re-issued once per dictionary entry with that identifier in place, signed by
+/// the right issuer key, and put through every entry point strict and relaxed.
+fn derivation_sweep(ctx: &mut Ctx, w: &World, rng: &mut Rng, sweep_no: u64, clock: Clock, slice: Slice) {
+    let nkeys = w.pool.len();
+    let wall = matches!(clock, Clock::Wall);
+    let base: i64 = match clock {
+        Clock::Wall => std::time::SystemTime::now().duration_since(std::time::UNIX_EPOCH).map(|d| d.as_secs() as i64).unwrap_or(1_790_000_000),
+        Clock::At(_) => {
+            let era: i64 = *rng.pick(&[-473_385_600i64, 0, 946_684_800, 2_524_608_000 - 86_400 * 200, 2_840_140_800, 1_700_000_000]);
+            era + (rng.below(1000) as i64) * 86_400 + rng.below(86_400) as i64
+        }
+    };
+    let clock = if wall { Clock::Wall } else { Clock::At(base) };
+    let strict0 = rng.bool();
+    let ta_key = (ctx.shard as usize + sweep_no as usize) % nkeys;
+    let ca_key = (ta_key + 1 + rng.usize_below(nkeys - 1)) % nkeys;
+    let leaf_key = (ca_key + 1 + rng.usize_below(nkeys - 1)) % nkeys;
+    let full = |fl: Flavour| Claim::Blocks(IntervalSet::from_ranges(&[(0, fl.max())]));
+    let ta = Spec {
+        kind: Kind::Ta, key: ta_key, issuer_key: ta_key, serial: 1 + rng.below(1 << 40), not_before: base - 86_400 * 40, not_after: base + 86_400 * 400,
+        overclaim: Overclaim::Refuse, claims: [full(Flavour::As), full(Flavour::V4), full(Flavour::V6)], aki: AkiChoice::Issuer,
+        issuer_name: None, subject_name: None, router_key: None,
+    };
+    let ta_der = build(w, &ta);
+    let detail = json!({"sweep": sweep_no, "clock": clock_json(clock), "keys": {"ta": ta_key, "ca": ca_key, "leaf": leaf_key}});
+    let validate_here = |ctx: &mut Ctx, kind: Kind, d: &[u8], issuer: Option<&ResourceCert>| -> Option<ResourceCert> {
+        match clock {
+            Clock::At(t) => match validate(ctx, w, kind, d, issuer, strict0, t) {
+                Some(Outcome::Accepted(rc)) => rc,
+                _ => None,
+            },
+            Clock::Wall => {
+                let tal = w.tal.clone();
+                ctx.no_panic("validate-wall-clock", || json!({"cert": hex(d)}), move || {
+                    let cert = Cert::decode(d).ok()?;
+                    match kind {
+                        Kind::Ta => cert.validate_ta(tal, strict0).ok(),
+                        _ => cert.validate_ca(issuer?, strict0).ok(),
+                    }
+                })
+                .flatten()
+            }
+        }
+    };
+    // ---- trust anchor: subject key identifier
+    let ta_facts = &w.pool_facts[ta_key];
+    if !control_accepted(ctx, w, Kind::Ta, &ta_der, None, clock, &detail) {
+        ctx.obs("derived_sweep_abandoned", 1);
+        return;
+    }
+    let Some(ta_rc) = validate_here(ctx, Kind::Ta, &ta_der, None) else {
+        ctx.obs("derived_sweep_abandoned", 1);
+        return;
+    };
+    match with_keyid(w.pool, &ta_der, false, &ta_facts.required, ta_key) {
+        Some(x) if x == ta_der => ctx.obs("derived_splice_of_required_value_reproduces_certificate", 1),
+        _ => {
+            // the certificate as issued does not hold SHA-1(key bits) where the harness expects it
+            ctx.obs("derived_splice_of_required_value_differs", 1);
+        }
+    }
+    for (i, dv) in ta_facts.derivs.iter().enumerate() {
+        if !slice.takes(i, dv) {
+            continue;
+        }
+        let Some(x) = with_keyid(w.pool, &ta_der, false, &dv.octets, ta_key) else {
+            ctx.obs("derived_splice_failed", 1);
+            continue;
+        };
+        check_derived(ctx, w, Kind::Ta, &x, None, clock, "ski", dv, ta_facts, &detail);
+    }
+    // a trust anchor may carry an authority key identifier; the statement says nothing
+    // about it, so what happens with a derived one is only recorded
+    if let Clock::At(t) = clock {
+        for (i, dv) in ta_facts.derivs.iter().enumerate() {
+            if !(Slice { core_only: true, ..slice }).takes(i, dv) {
+                continue;
+            }
+            let Some(x) = edit_extensions(&ta_der, &[], &[keyid_ext(true, &dv.octets)]).and_then(|tbs| resign(w.pool, &ta_der, &tbs, ta_key)) else { continue };
+            match validate(ctx, w, Kind::Ta, &x, None, false, t) {
+                Some(Outcome::Accepted(_)) => ctx.obs("derived_aki_added_to_trust_anchor_accepted_relaxed", 1),
+                Some(Outcome::Rejected(_)) => ctx.obs("derived_aki_added_to_trust_anchor_rejected_relaxed", 1),
+                None => {}
+            }
+        }
+    }
+    // ---- the issuing CA
+    let sub = |lo: u128, hi: u128| Claim::Blocks(IntervalSet::from_ranges(&[(lo, hi)]));
+    let ca = Spec {
+        kind: Kind::Ca, key: ca_key, issuer_key: ta_key, serial: 2 + rng.below(1 << 50), not_before: base - 86_400 * 30, not_after: base + 86_400 * 300,
+        overclaim: Overclaim::Refuse, claims: [sub(64496, 64511), sub(0x0A00_0000, 0x0AFF_FFFF), sub(0x2001_0db8 << 96, (0x2001_0db9 << 96) - 1)], aki: AkiChoice::Issuer,
+        issuer_name: Some(ta_rc.subject().clone()), subject_name: None, router_key: None,
+    };
+    let ca_der = build(w, &ca);
+    let Some(ca_rc) = validate_here(ctx, Kind::Ca, &ca_der, Some(&ta_rc)) else {
+        ctx.obs("derived_sweep_abandoned", 1);
+        return;
+    };
+    let ca_facts = &w.pool_facts[ca_key];
+    // ---- the three kinds of leaf
+    for kind in [Kind::Ca, Kind::Ee, Kind::Router] {
+        let rk = rng.usize_below(w.router_keys.len());
+        let claims = match kind {
+            Kind::Router => [sub(64500, 64501), Claim::Missing, Claim::Missing],
+            Kind::Ee => [Claim::Missing, sub(0x0A01_0000, 0x0A01_FFFF), Claim::Inherit],
+            _ => [Claim::Inherit, Claim::Inherit, Claim::Inherit],
+        };
+        let spec = Spec {
+            kind, key: leaf_key, issuer_key: ca_key, serial: 3 + rng.below(1 << 50), not_before: base - 86_400 * 20, not_after: base + 86_400 * 200,
+            overclaim: if rng.bool() { Overclaim::Refuse } else { Overclaim::Trim }, claims, aki: AkiChoice::Issuer,
+            issuer_name: Some(ca_rc.subject().clone()), subject_name: None,
+            router_key: if kind == Kind::Router { Some(w.router_keys[rk].clone()) } else { None },
+        };
+        let d = build(w, &spec);
+        let mut det = detail.clone();
+        det["leaf"] = json!(format!("{:?}", kind));
+        det["issuer_cert"] = json!(hex(&ca_der));
+        if !control_accepted(ctx, w, kind, &d, Some(&ca_rc), clock, &det) {
+            ctx.obs("derived_leaf_abandoned", 1);
+            continue;
+        }
+        let subject = if kind == Kind::Router { &w.router_facts[rk] } else { &w.pool_facts[leaf_key] };
+        for id_is_aki in [false, true] {
+            let which = if id_is_aki { "aki" } else { "ski" };
+            // the right key: the subject's for the SKI, the issuer's for the AKI
+            let facts = if id_is_aki { ca_facts } else { subject };
+            match with_keyid(w.pool, &d, id_is_aki, &facts.required, ca_key) {
+                Some(x) if x == d => ctx.obs("derived_splice_of_required_value_reproduces_certificate", 1),
+                _ => ctx.obs("derived_splice_of_required_value_differs", 1),
+            }
+            let relations: Vec<Deriv> = if id_is_aki {
+                vec![relation("the-certificates-own-subject-key-identifier", &subject.required), relation("the-issuers-authority-key-identifier", &ta_facts.required)]
+            } else {
+                vec![relation("the-issuers-subject-key-identifier", &ca_facts.required)]
+            };
+            for (i, dv) in facts.derivs.iter().enumerate().chain(relations.iter().map(|r| (slice.residue, r))) {
+                if !slice.takes(i, dv) || dv.octets == facts.required {
+                    continue;
+                }
+                let Some(x) = with_keyid(w.pool, &d, id_is_aki, &dv.octets, ca_key) else {
+                    ctx.obs("derived_splice_failed", 1);
+                    continue;
+                };
+                check_derived(ctx, w, kind, &x, Some(&ca_rc), clock, which, dv, facts, &det);
+            }
+        }
+    }
+    ctx.obs(if wall { "derived_sweeps_wall_clock" } else { "derived_sweeps" }, 1);
+    ctx.obs_max("derived_dictionary_entries_per_rsa_key", ta_facts.derivs.len() as u64);
+    ctx.obs_max("derived_dictionary_entries_per_router_key", w.router_facts[0].derivs.len() as u64);
+    ctx.drain_chain_hook(|| json!({"sweep": sweep_no}));
+}
+
+/// One entry of the dictionary planted into a valid link of a generated
+/// chain (whatever its depth, era, resources and policy are).
+#[allow(clippy::too_many_arguments)]
+fn derived_in_chain(ctx: &mut Ctx, w: &World, rng: &mut Rng, spec: &Spec, d: &[u8], issuer: &Node, now: i64, detail: &Value) {
+    let kind = spec.kind;
+    let id_is_aki = rng.bool();
+    let facts = if id_is_aki {
+        &w.pool_facts[issuer.key]
+    } else if kind == Kind::Router {
+        match spec.router_key.as_ref().and_then(|k| w.router_keys.iter().position(|x| x == k)) {
+            Some(i) => &w.router_facts[i],
+            None => return,
+        }
+    } else {
+        &w.pool_facts[spec.key]
+    };
+    let dv = rng.pick(&facts.derivs);
+    let Some(x) = with_keyid(w.pool, d, id_is_aki, &dv.octets, issuer.key) else {
+        ctx.obs("derived_splice_failed", 1);
+        return;
+    };
+    ctx.obs("derived_cases_in_generated_chains", 1);
+    let mut det = detail.clone();
+    det["issuer_cert"] = json!(hex(&issuer.der_bytes));
+    check_derived(ctx, w, kind, &x, Some(&issuer.rc), Clock::At(now), if id_is_aki { "aki" } else { "ski" }, dv, facts, &det);
+}
+
 pub fn run(ctx: &mut Ctx) {
     if ctx.no_ffi() {
         ctx.notes.push("C01 needs signatures (aws-lc, FFI): not run under Miri".into());
         return;
     }
     let pool = PoolSigner::new(6);
+    let router_spki: Vec<Vec<u8>> = (0..2).map(|_| crate::keys::p256_spki()).collect();
     let w = World {
         pool: &pool,
         tal: TalInfo::from_name("verif".into()).into_arc(),
         uri: uri::Rsync::from_str("rsync://example.com/m/p").unwrap(),
-        router_keys: (0..2).map(|_| PublicKey::decode(crate::keys::p256_spki().as_slice()).unwrap()).collect(),
+        router_keys: router_spki.iter().map(|s| PublicKey::decode(s.as_slice()).unwrap()).collect(),
+        pool_facts: pool.keys.iter().map(|k| key_facts(&k.spki)).collect(),
+        router_facts: router_spki.iter().map(|s| key_facts(s)).collect(),
     };
+    // ---- key identifiers derived from the right key in another way: the whole
+    // dictionary on chains of this shard's own (a slice of it under valgrind)
+    {
+        let mut srng = ctx.rng("derivation-sweeps");
+        let everything = Slice { modulus: 1, residue: 0, core_only: false };
+        let (sweeps, slice, wall) = match ctx.stage {
+            Stage::Native if ctx.tier == Tier::Thorough => (6, everything, true),
+            Stage::Native | Stage::Asan => (1, everything, true),
+            _ => (1, Slice { modulus: 16, residue: (ctx.shard as usize + ctx.seed as usize) % 16, core_only: false }, false),
+        };
+        for i in 0..sweeps {
+            derivation_sweep(ctx, &w, &mut srng, i, Clock::At(0), slice);
+        }
+        if wall {
+            derivation_sweep(ctx, &w, &mut srng, sweeps, Clock::Wall, Slice { core_only: true, ..slice });
+        }
+    }
     let chains = ctx.stage_budget((20_000, 600_000), 3_000, 0, 24);
     let mut rng = ctx.rng("chains");
     let mut xrng = ctx.rng("encoder-shapes");
+    let mut drng = ctx.rng("derived-key-identifiers");
     for i in 0..chains {
-        run_chain(ctx, &w, &mut rng, &mut xrng, i);
+        run_chain(ctx, &w, &mut rng, &mut xrng, &mut drng, i);
     }
     ctx.obs("signatures_made", pool.signatures.get());
 }
